@@ -677,6 +677,18 @@ def search(ctx):
             ctx.count(f'search-singular:mvdr:extra-axes-{len(extra)}')
             ctx.run(stacked_equals_slices, fn='get_mvdr_vector', arrays={'atf': pu.cnormal(rng, lead + (D,)), 'noise': nz},
                     kwargs={}, regular=np.broadcast_to(~sb, lead).copy(order='K'))
+            if len(lead) > 1:
+                # the noise PSD carries every leading axis itself (one noise matrix per problem AND bin), singular at a few
+                # full indices: the fallback must pair problem k's steering vectors with problem k's noise matrices
+                nfull = pu.hpd_stack(rng, lead, D)
+                sfull = rng.random(lead) < 0.25
+                if not sfull.any():
+                    sfull[tuple(int(rng.integers(n)) for n in lead)] = True
+                for idx in np.argwhere(sfull):
+                    nfull[tuple(idx)] = pu.singular_psd(rng, D, str(rng.choice(['zero', 'dead-channel'])))
+                ctx.count('search-singular:mvdr:noise-with-leading-axes')
+                ctx.run(stacked_equals_slices, fn='get_mvdr_vector',
+                        arrays={'atf': pu.cnormal(rng, lead + (D,)), 'noise': nfull}, kwargs={}, regular=~sfull)
         # stacked vs individual with singular bins: only regular indices are compared, the stack must not raise
         if i % 3 == 0:
             key = 'ref_channel' if fn == 'souden' else 'reference_channel'
